@@ -22,6 +22,10 @@ ezc3d::DataNS::Data::Data(ezc3d::c3d &file)
                  256*ezc3d::DATA_TYPE::WORD*file.parameters().nbParamBlock() -
                  ezc3d::DATA_TYPE::BYTE), std::ios::beg); // "- BYTE" so it is just prior
 
+#ifdef EZC3D_VERIF
+    ezc3d_verif_on_data_decl(file.header().nbFrames(), file.header().nb3dPoints(),
+                             file.header().nbAnalogs(), file.header().nbAnalogByFrame());
+#endif
     // Initialize some variables
     if (file.header().nbFrames()>0)
         _frames.resize(file.header().nbFrames());
